@@ -1,6 +1,7 @@
 import GtirbVerif.Lemmas.CfiEval
 import GtirbVerif.Gen.DwarfTables
 import GtirbVerif.Gen.AbiBasic
+import GtirbVerif.Spec.Platform
 
 /-!
 # C15 — CFI evaluation implements the DWARF rules and fails cleanly
@@ -292,6 +293,16 @@ theorem blocks_sorted (blocks : List BlockIn) :
 theorem offsets_sorted (m : List (Nat × List Directive)) :
     (sortBy (·.1) m).Pairwise (fun a b => a.1 ≤ b.1) ∧ (sortBy (·.1) m).Perm m :=
   ⟨sortBy_sorted _ _, sortBy_perm _ _⟩
+
+/-- the ABI parameters the evaluator uses (regenerated from `abi._ABIS`) are
+the platform's: byte order and pointer size of every ABI, and the psABI return
+column where one is fixed -/
+theorem abi_matches_platform :
+    Gen.abiBasic.all (fun e =>
+      Std.platform.lookup e.2.1 == some (e.2.2.2.bo, e.2.2.2.ptr) &&
+      (match Std.psabiReturnColumn.find? (fun p => p.1 == e.2.1 && p.2.1 == e.2.2.1) with
+       | some p => e.2.2.2.retcol == some (p.2.2 : Int)
+       | none => true)) = true := by decide +kernel
 
 /-! ### non-vacuity -/
 
